@@ -101,7 +101,13 @@ class EvalMixin(object):
         return self.fold(node, mod, depth)
 
     def fold(self, node, mod, depth=0):
-        """constant folding of module-level expressions"""
+        """constant folding of module-level expressions (memoised)"""
+        key = id(node)
+        if key not in self._fold_cache:
+            self._fold_cache[key] = self._fold(node, mod, depth)
+        return self._fold_cache[key]
+
+    def _fold(self, node, mod, depth=0):
         if depth > 8:
             return ("unknown", "fold-depth")
         try:
@@ -195,6 +201,7 @@ class EvalMixin(object):
         fi = FuncInfo(frame.func.module, frame.func.cls, fd, parent=frame.func)
         cid = (fi.qualname, node.lineno)
         self.closures[cid] = (fi, frame)
+        frame.has_closure = True
         return [(state, ("closure", cid))]
 
     def ex_Starred(self, node, state, frame):
